@@ -1,8 +1,8 @@
 (* TieC04.v — facts regenerated from /repo (gen/Facts.v) against the model (Call.v).  The
    message-type filter of server.handle is a parameter of the model (run/C04Run.v instantiates it
-   from f_c04_filter_dropped) and is therefore not pinned.  The two stub facts about the Object
-   stub and the generator are what a repair of the noncall_runs defect is expected to change: they
-   are recorded in design/C04.md, not pinned here. *)
+   from f_c04_filter_dropped) and is therefore not pinned.  f_c04_generator_switch_on (the header fields the stub generator's Receive template looks at) is
+   what a repair of the noncall_runs defect is expected to change: it is emitted for the record and
+   not pinned; the switch tags of the generated Receive methods are. *)
 From Coq Require Import String NArith List.
 From QV Require Import Call Facts.
 Import ListNotations.
@@ -67,9 +67,6 @@ Lemma tie_c04_stub_hello_text : f_c04_stub_hello_text =
 Proof. reflexivity. Qed.
 Lemma tie_c04_stub_nanoseconds_text : f_c04_stub_nanoseconds_text =
   "func (p *stubTimestamp) Nanoseconds(msg *net.Message, c bus.Channel) error { ret, callErr := p.impl.Nanoseconds() if msg.Header.Type == net.Post { return nil } if callErr != nil { return c.SendError(msg, callErr) } var out bytes.Buffer errOut := basic.WriteInt64(ret, &out) if errOut != nil { return c.SendError(msg, fmt.Errorf("""", errOut)) } return c.SendReply(msg, out.Bytes()) }".
-Proof. reflexivity. Qed.
-Lemma tie_c04_generator_switch_on : f_c04_generator_switch_on =
-  "msg.Header.Action ; ".
 Proof. reflexivity. Qed.
 (* what the generator emits after the call of the method: Post test before error/reply *)
 Lemma tie_c04_generator_post_block : f_c04_generator_post_block =
